@@ -233,6 +233,14 @@ def _ws_builtins(interp):
     ctx = interp.ctx
 
     def split_comma_header(a, k, fr):
+        # wsproto 1.2: [piece.decode("ascii").strip() for piece in value.split(b",")] -- a byte
+        # over 0x7f in the header value raises UnicodeDecodeError
+        from .calls import ascii_cond
+        from .ops import mk_exc
+        from .sym import str_to_z3
+
+        if not ctx.branch(ascii_cond(str_to_z3(a[0])), f"split_comma_header:ascii@{fr.line}"):
+            raise mk_exc(UnicodeDecodeError, "ascii", b"", 0, 1, "ordinal not in range(128)", where=fr.where())
         sq = SymSeq(ctx.fresh("split_comma", StrSeq), "str")
         return PList(sym=sq)
 
